@@ -78,7 +78,16 @@ impl StyledCase {
     pub fn html(&self) -> String {
         let mut d = self.doc.clone();
         d.doctype = true;
-        d.style = Some(if self.styling.author.is_empty() { String::new() } else { sheet_to_css(&self.styling.author, &self.variant) });
+        d.style_place = self.variant.place;
+        let a = &self.styling.author;
+        if self.variant.split && a.len() >= 2 {
+            // the same rules in the same order, over two <style> elements
+            let k = (a.len() + 1) / 2;
+            d.style = Some(sheet_to_css(&a[..k].to_vec(), &self.variant));
+            d.style2 = Some(sheet_to_css(&a[k..].to_vec(), &self.variant));
+        } else {
+            d.style = Some(if a.is_empty() { String::new() } else { sheet_to_css(a, &self.variant) });
+        }
         d.to_html()
     }
     pub fn cfg(&self) -> CfgSpec {
